@@ -10,7 +10,8 @@ EXTENDS EduceRun, EduceBuild
 CONSTANTS RankSet,          \* explicit ranks on offer to struct fields
           EnumRankSet,      \* explicit ranks on offer to enum fields
           SimpleStyles,     \* styles of the non-rich variants of an enum
-          RichFields,       \* field bound of a "rich" variant (all treatments and ranks)
+          RichFields,       \* field bound of a "rich" struct (all treatments and ranks)
+          EnumRichFields,   \* field bound of the rich variant of an enum
           MaxLawValues      \* law triples only for configurations with at most this many values
 
 VARIABLE run
@@ -46,7 +47,7 @@ MCFieldSet(c) ==
   ELSE LET lv == Last(c.variants) IN
     IF EarlierRich(c)
     THEN IF Len(lv.fields) < 1 THEN PlainFields ELSE {}
-    ELSE IF Len(lv.fields) < RichFields THEN FullFields(c.kind) ELSE {}
+    ELSE IF Len(lv.fields) < (IF c.kind = "struct" THEN RichFields ELSE EnumRichFields) THEN FullFields(c.kind) ELSE {}
 
 \* only configurations the macro must accept are sealed here (rank clashes
 \* among compared fields are C13's business)
